@@ -50,4 +50,98 @@ impl EdgeList {
         forall|j: int| 0 <= j < it4.seq().len() ==> #[trigger] it4.seq()[j] == (u, j as usize),
         forall|p: (usize, usize)| #[trigger] vx_acc@.contains(p) == ((p.0 < m && m <= p.1 < order) || (m <= p.0 < u && p.1 < m) || (p.0 == u && p.1 < it4.index())),
     @*/
+
+    // `complete_arc` and the contract of `trivial` come from units/inc/edge_list_ops.inc.rs (imported by the unit).
+    // E14: `(0..order).flat_map(|u| (0..u).chain((u + 1)..order).map(move |v| (u, v))).collect()` becomes two nested accumulator
+    // loops; the inner one runs over `vx_chain(0..u, (u + 1)..order).map(closure)` (E12 wrapper, prelude/edge_list_more_std.rs).
+    /*@fn impl=EdgeList trait=Complete name=complete loopify=BTreeSet wrap=chain props=C14,C13
+    ensures
+        order >= 1,
+        r.wf(),
+        r.ord() == order,
+        forall|a: int, b: int| #![trigger r.has(a, b)] r.has(a, b) == complete_arc(order as int, a, b),
+    @closure 2 |v: usize| -> (p: (usize, usize))
+    ensures
+        p == (u, v),
+    @fn_start
+        broadcast use vstd::std_specs::iter::group_iter_axioms;
+    @loop 1
+    invariant
+        order > 1,
+        forall|p: (usize, usize)| #[trigger] vx_acc@.contains(p) == (p.0 < u && p.1 < order && p.0 != p.1),
+    @loop 2
+    invariant
+        order > 1,
+        u < order,
+        it2.iter.obeys_prophetic_iter_laws(),
+        it2.iter.decrease() is Some,
+        it2.seq().len() <= order - 1,
+        it2.iter.will_return_none() ==> it2.seq().len() == order - 1,
+        forall|j: int| 0 <= j < it2.seq().len() ==> #[trigger] it2.seq()[j] == (u, skip_idx(u as int, j) as usize),
+        forall|p: (usize, usize)| #[trigger] vx_acc@.contains(p) == ((p.0 < u && p.1 < order && p.0 != p.1) || (p.0 == u && p.1 != u && p.1 < skip_idx(u as int, it2.index() as int))),
+    @*/
+}
+
+/// the j-th item of `(0..u).chain((u + 1)..n)`: the range 0..n with u left out
+spec fn skip_idx(u: int, j: int) -> int { if j < u { j } else { j + 1 } }
+
+// ---- C12: is_complete is true iff every ordered pair of distinct vertices is an arc ----
+// `is_complete` compares `*self` with `Self::complete(self.order())` through the DERIVED `PartialEq` of
+// `struct EdgeList { arcs: BTreeSet<(usize, usize)>, order: usize }`.  The extractor drops derives, so the derived impl is stated
+// here as an assumed contract (as for AdjacencyMatrix in units/inc/matrix_more.inc.rs):
+// A: `#[derive(PartialEq)]` is fieldwise.  rustdoc of the PartialEq derive: "When derived on structs, two instances are equal
+// if all fields are equal, and not equal if any fields are not equal."  The fields are compared with their own `==`
+// (`BTreeSet<(usize, usize)>`: axiom_btree_set_eq in prelude/edge_list_gen2_std.rs; `usize`).
+impl vstd::std_specs::cmp::PartialEqSpecImpl for EdgeList {
+    closed spec fn obeys_eq_spec() -> bool { true }
+    closed spec fn eq_spec(&self, other: &Self) -> bool {
+        &&& vstd::std_specs::cmp::PartialEqSpec::eq_spec(&self.arcs, &other.arcs)
+        &&& vstd::std_specs::cmp::PartialEqSpec::eq_spec(&self.order, &other.order)
+    }
+}
+impl PartialEq for EdgeList {
+    #[verifier::external_body]
+    fn eq(&self, other: &Self) -> bool { self.arcs == other.arcs && self.order == other.order }
+}
+
+/// the assumed meaning of the derived `==` in terms of the fields' values
+proof fn lemma_edge_list_eq_spec(a: EdgeList, b: EdgeList)
+    ensures vstd::std_specs::cmp::PartialEqSpec::eq_spec(&a, &b) == (a.arcs@ == b.arcs@ && a.order == b.order),
+{
+    broadcast use axiom_btree_set_eq;
+}
+
+/// every ordered pair of distinct vertices is an arc
+spec fn all_pairs_arcs(g: EdgeList) -> bool {
+    forall|a: int, b: int| 0 <= a < g.ord() && 0 <= b < g.ord() && a != b ==> #[trigger] g.has(a, b)
+}
+
+impl EdgeList {
+    /*@fn impl=EdgeList trait=IsComplete name=is_complete props=C12,C13
+    requires
+        self.wf(),
+    ensures
+        r == all_pairs_arcs(*self),
+        r == (forall|a: int, b: int| 0 <= a < self.ord() && 0 <= b < self.ord() && a != b ==> self.has(a, b)),
+    @fn_start
+        proof {
+            // for every candidate value c of `Self::complete(self.order())`
+            assert forall|c: EdgeList| c.wf() && c.ord() == self.ord()
+                && (forall|a: int, b: int| #![trigger c.has(a, b)] c.has(a, b) == complete_arc(self.ord(), a, b))
+                implies #[trigger] vstd::std_specs::cmp::PartialEqSpec::eq_spec(self, &c) == all_pairs_arcs(*self) by {
+                lemma_edge_list_eq_spec(*self, c);
+                if all_pairs_arcs(*self) {
+                    assert forall|a: int, b: int| self.has(a, b) == c.has(a, b) by {
+                        if self.has(a, b) { assert(self.arcs@.contains((a as usize, b as usize))); }
+                    }
+                    lemma_edge_canonical(*self, c);
+                }
+                if self.arcs@ == c.arcs@ {
+                    assert forall|a: int, b: int| 0 <= a < self.ord() && 0 <= b < self.ord() && a != b implies #[trigger] self.has(a, b) by {
+                        assert(c.has(a, b));
+                    }
+                }
+            }
+        }
+    @*/
 }
